@@ -97,7 +97,9 @@ func faultyStmt(g *scriptGen, depth int) *Stmt {
 	case 9:
 		return &Stmt{K: "call", Fn: "pn", Args: []*Expr{str("x"), f.e}, Note: note("call-argument")}
 	case 10:
-		return &Stmt{K: "cmd", Words: []TextPart{{S: "c0"}, {S: "w"}, {E: f.e}}, Note: note("command-argument")}
+		// the command name may itself be a word that is read as a number or a boolean (two faults in one statement)
+		name := rapid.SampledFrom([]string{"c0", "c0", "c1", "3", "true", "-1.5", "nosuchcmd"}).Draw(t, "cmdname")
+		return &Stmt{K: "cmd", Words: []TextPart{{S: name}, {S: "w"}, {E: f.e}}, Note: note("command-argument")}
 	case 11:
 		return rapid.SampledFrom([]*Stmt{
 			{K: "jump", Target: "Nowhere", Note: "statement/unknown-node"},
@@ -224,16 +226,18 @@ func TestC06FaultMatrix(t *testing.T) {
 			line := func(s string) *Stmt { return &Stmt{K: "line", Text: []TextPart{{S: s}}} }
 			for _, f := range cat {
 				contexts := map[string]*Stmt{
-					"line-interpolation": {K: "line", Text: []TextPart{{S: "X "}, {E: f.e}}},
-					"option-text":        {K: "opts", Opts: []*Opt{{Text: []TextPart{{S: "o1"}}}, {Text: []TextPart{{S: "o2 "}, {E: f.e}}}}},
-					"option-condition":   {K: "opts", Opts: []*Opt{{Text: []TextPart{{S: "o1"}}, Cond: f.e, Body: []*Stmt{line("in o1")}}}},
-					"set-rhs":            {K: "set", Var: "fresh", Op: "=", E: f.e},
-					"compound-set-rhs":   {K: "set", Var: "k1", Op: "*=", E: f.e},
-					"if-condition":       {K: "if", Clauses: []*Clause{{Cond: f.e, Body: []*Stmt{line("in if")}}}},
-					"elseif-condition":   {K: "if", Clauses: []*Clause{{Cond: boolean(false)}, {Cond: f.e}}, HasElse: true, Else: []*Stmt{line("in else")}},
-					"jump-expression":    {K: "jumpx", E: f.e},
-					"call-argument":      {K: "call", Fn: "ps", Args: []*Expr{str("x"), f.e}},
-					"command-argument":   {K: "cmd", Words: []TextPart{{S: "c1"}, {E: f.e}, {S: "z"}}},
+					"line-interpolation":   {K: "line", Text: []TextPart{{S: "X "}, {E: f.e}}},
+					"option-text":          {K: "opts", Opts: []*Opt{{Text: []TextPart{{S: "o1"}}}, {Text: []TextPart{{S: "o2 "}, {E: f.e}}}}},
+					"option-condition":     {K: "opts", Opts: []*Opt{{Text: []TextPart{{S: "o1"}}, Cond: f.e, Body: []*Stmt{line("in o1")}}}},
+					"set-rhs":              {K: "set", Var: "fresh", Op: "=", E: f.e},
+					"compound-set-rhs":     {K: "set", Var: "k1", Op: "*=", E: f.e},
+					"if-condition":         {K: "if", Clauses: []*Clause{{Cond: f.e, Body: []*Stmt{line("in if")}}}},
+					"elseif-condition":     {K: "if", Clauses: []*Clause{{Cond: boolean(false)}, {Cond: f.e}}, HasElse: true, Else: []*Stmt{line("in else")}},
+					"jump-expression":      {K: "jumpx", E: f.e},
+					"call-argument":        {K: "call", Fn: "ps", Args: []*Expr{str("x"), f.e}},
+					"command-argument":     {K: "cmd", Words: []TextPart{{S: "c1"}, {E: f.e}, {S: "z"}}},
+					"numeric-command-name": {K: "cmd", Words: []TextPart{{S: "3"}, {E: f.e}}},
+					"boolean-command-name": {K: "cmd", Words: []TextPart{{S: "true"}, {S: "w"}, {E: f.e}}},
 				}
 				for name, st := range contexts {
 					st.Note = name + "/" + f.kind
